@@ -34,7 +34,13 @@ DEFAULT_WS = "\t\n\r "
 
 
 def q(s):
-    return "'" + s.replace("\\", "\\\\").replace("'", "\\'").replace("\n", "\\n").replace("\t", "\\t") + "'"
+    return "'" + s.replace("\\", "\\\\").replace("'", "\\'").replace("\n", "\\n").replace("\t", "\\t").replace("\r", "\\r") + "'"
+
+
+def q_esc(s):
+    """the same literal written with an escape sequence for its first character (\\xNN / \\uNNNN)"""
+    c = s[0]
+    return "'" + ("\\x%02x" % ord(c) if ord(c) < 256 else "\\u%04x" % ord(c)) + q(s[1:])[1:]
 
 
 def to_text(grammar):
@@ -67,7 +73,7 @@ def expr_text(e, prec):
     """prec: 0 = choice level, 1 = sequence level, 2 = repeatable level (atom)"""
     k = e[0]
     if k == "lit":
-        return q(e[1])
+        return q_esc(e[1]) if len(e) > 2 and e[2] == "esc" else q(e[1])
     if k == "re":
         return "/" + e[1].replace("/", "\\/") + "/"
     if k == "ref":
